@@ -154,6 +154,11 @@ class CEMIHandler:
                 )
                 self.handle_data_secure_key_issue(cemi.data, _cemi_data_is_data_secure)
                 return
+            except ConversionError as err:
+                # authenticated frame with a malformed or unsupported plain APDU
+                logger.warning("Could not parse decrypted CEMI frame: %s", err)
+                self.xknx.connection_manager.cemi_count_incoming_error += 1
+                return
 
         telegram = cemi.data.telegram()
         telegram.direction = TelegramDirection.INCOMING
